@@ -78,3 +78,16 @@ Definition api_entry_names (g : game) : list (list byte) :=
   | Ok es => map fst es
   | _ => []
   end.
+
+From Peppi Require Import Model.Frag.
+(* the fragmenting-stream model, for the correspondence run against std's read_exact and the real reader over a
+   scheduled reader (harness SchedReader) *)
+Definition api_step_give (k : nat) : rstep := Give k.
+Definition api_step_interrupt : rstep := Interrupt.
+Definition api_step_fault : rstep := Fault.
+Definition api_rexact (n : nat) (data : list byte) (sched : list rstep) : outcome (list byte) * list byte * list rstep :=
+  let h := mk_hreader data sched None in
+  let '(res, h') := read_exact_f (fuel_for n h) n h in (res, fs_data (hr_inner h'), fs_sched (hr_inner h')).
+Definition api_read_sched (hash : bool) (data : list byte) (sched : list rstep) : outcome game * list byte * option nat :=
+  let '(res, h') := run_frag (p_slp_read hash (List.length data)) (mk_hreader data sched (if hash then Some [] else None)) in
+  (res, fs_data (hr_inner h'), option_map (@List.length byte) (hr_hashed h')).
